@@ -15,7 +15,7 @@ MODEL_FILES = ["Model/C14_heap.v"]
 ALLOWED_AXIOMS: list[str] = []
 CASE_HEADER = ("From Coq Require Import String List.\nFrom LK Require Import Lib.StrDict Gen.C14_alias Model.C14_heap.\n"
                "Import ListNotations.\nOpen Scope string_scope.")
-SHARD = 25
+SHARD = 8
 SEARCH_CASES = 400
 TRUSTED = [
     "Coq 8.16.1 kernel + vm_compute (no native_compute); Print Assumptions of every theorem in Props/C14.v: closed under the global context",
@@ -338,7 +338,7 @@ def gen_standard(rng):
 
 
 def gen_cases(rng, tier):
-    n = 150 if tier == "quick" else 1500
+    n = 120 if tier == "quick" else 1200
     out = []
     for k in range(n):
         r = rng.fork(k)
@@ -523,6 +523,14 @@ def oracle(case, obs):
         return v
     first_p, first_d = {}, {}
     trained = set()
+    seen = set()       # (object, field) already reported: a difference is attributed to the step where it first shows
+
+    def once(tag):
+        if tag in seen:
+            return False
+        seen.add(tag)
+        return True
+
     for t, (op, st) in enumerate(zip(case["ops"], obs["steps"])):
         if op["op"] == "ptrain" and not st["result"]["err"]:
             trained.add(op["p"])
@@ -532,12 +540,12 @@ def oracle(case, obs):
                 continue
             t0, o0 = first_p[j]
             for f in P_CONST:
-                if o[f] != o0[f]:
+                if o[f] != o0[f] and once(("p", j, f)):
                     bad(f"pipeline-changed:{f}:after-{op['op']}", f"pipeline #{j} built at step {t0} has a different {f} after step {t} ({op['op']}): "
                                                                  f"{json.dumps(o0[f])[:120]} -> {json.dumps(o[f])[:120]}")
             if j not in trained:
                 for f in ("nodes", "runs"):
-                    if o[f] != o0[f]:
+                    if o[f] != o0[f] and once(("p", j, f)):
                         bad(f"pipeline-changed:{f}:after-{op['op']}", f"pipeline #{j} (never trained itself) has different {f} after step {t} ({op['op']})")
             else:
                 first_p[j] = (t0, {**o0, "nodes": o["nodes"], "runs": o["runs"]}) if op["op"] == "ptrain" and op["p"] == j else first_p[j]
@@ -547,12 +555,12 @@ def oracle(case, obs):
                 continue
             t0, o0 = first_d[j]
             for f in ("meta", "ents", "rels", "tables"):
-                if o[f] != o0[f]:
+                if o[f] != o0[f] and once(("d", j, f)):
                     bad(f"dataset-changed:{f}:after-{op['op']}", f"dataset #{j} built at step {t0} has a different {f} after step {t} ({op['op']}): "
                                                                 f"{json.dumps(o0[f])[:140]} -> {json.dumps(o[f])[:140]}")
             ks = [k for k in o.get("views", {}) if k in o0.get("views", {}) and o["views"][k] != o0["views"][k]]
             ks += [k for k in o0.get("views", {}) if k != "saved" and k not in o.get("views", {})]
-            if ks:
+            if ks and once(("d", j, "views")):
                 bad(f"dataset-changed:views:after-{op['op']}", f"dataset #{j} built at step {t0} shows different {ks} after step {t} ({op['op']})")
     return v
 
